@@ -96,11 +96,12 @@ PtrMismatch(lt, o) == ~AssignOK(lt, o) /\ IsPtr(lt) /\ (IsPtr(VT(o)) \/ IsInt(VT
 OtherMismatch(lt, o) == ~AssignOK(lt, o) /\ ~PtrMismatch(lt, o)
 
 (* the (target type, operand) pairs a fragment subjects to 6.5.16.1p1 *)
+ArityOK(ft, n) == IF Variadic(ft) THEN n >= Len(Params(ft)) ELSE n = Len(Params(ft))
 AssignPairs(b, p, f) ==
   CASE f.form = "asg" /\ f.op = "=" /\ Ent(f.l).lv /\ ~IsArrayObj(f.l) -> {<<Ent(f.l).ty, f.r>>}
     [] f.form = "sinit" -> {<<f.ty, f.o>>}
-    [] f.form = "call" /\ IsFnPtr(VT(f.fn)) /\ Len(f.args) = Len(Params(Pointee(VT(f.fn)))) ->
-         {<<Params(Pointee(VT(f.fn)))[i], f.args[i]>> : i \in DOMAIN f.args}
+    [] f.form = "call" /\ IsFnPtr(VT(f.fn)) /\ ArityOK(Pointee(VT(f.fn)), Len(f.args)) ->
+         {<<Params(Pointee(VT(f.fn)))[i], f.args[i]>> : i \in DOMAIN Params(Pointee(VT(f.fn)))}
     [] f.form = "stmt" /\ f.kind = "return" /\ f.v # "none" /\ BaseTab[b].ret # "void" -> {<<BaseTab[b].ret, f.v>>}
     [] f.form = "strinit" /\ f.tgt = "charp" -> {<<"ptr_char", IF f.lit = "narrow" THEN "ks" ELSE "gp">>}
     [] OTHER -> {}
@@ -228,7 +229,8 @@ Bad(b, p, f) ==
   R_compound_assign_types |-> fm = "asg" /\ T /\ f.op # "=" /\ Ent(f.l).lv /\ ~IsArrayObj(f.l) /\ ~CompoundOK(f.op, Ent(f.l).ty, f.r),
   (* 6.5.2.2 calls *)
   R_call_nonfunction    |-> fm = "call" /\ T /\ ~IsFnPtr(VT(f.fn)),
-  R_call_arity          |-> fm = "call" /\ T /\ IsFnPtr(VT(f.fn)) /\ Len(f.args) # Len(Params(Pointee(VT(f.fn)))),
+  R_call_arity          |-> fm = "call" /\ T /\ IsFnPtr(VT(f.fn)) /\ ~ArityOK(Pointee(VT(f.fn)), Len(f.args)),
+  (* 6.5.2.2p4 with p7: an argument matching the ellipsis must have complete object type (here: not a whole struct is fine; void is not generated) *)
   (* 6.5.2.3, 6.5.2.1 *)
   R_member_of_nonstruct |-> fm = "mem" /\ T /\ ( (f.op = "." /\ ~IsStructT(Ent(f.a).ty))
                                                 \/ (f.op = "->" /\ VT(f.a) # "ptr_S") ),
@@ -455,11 +457,13 @@ Excluded(b, p, f) ==
   ELSE ExcludedCore(b, p, f)
 
 (* ------------------------------------------------------------------------------ *)
-Viol(b, p, f)  == IF f = None THEN {} ELSE LET r == Bad(b, p, f) IN {n \in DOMAIN r : r[n]}
-Unsp(b, p, f)  == IF f = None THEN {} ELSE LET r == Unsup(b, p, f) IN {n \in DOMAIN r : r[n]}
+(* `int zv = (E);` violates what E violates (the operands are constants, so the initializer is constant wherever it stands) *)
+Core(f) == IF f.form = "cinit" THEN f.of ELSE f
+Viol(b, p, f)  == IF f = None THEN {} ELSE LET r == Bad(b, p, Core(f)) IN {n \in DOMAIN r : r[n]}
+Unsp(b, p, f)  == IF f = None THEN {} ELSE LET r == Unsup(b, p, Core(f)) IN {n \in DOMAIN r : r[n]}
 
 Filled(P) == {s \in Positions : P.slots[s] # None}
-Rule(r, P) == \A s \in Filled(P) : ~Bad(P.base, s, P.slots[s])[r]
+Rule(r, P) == \A s \in Filled(P) : ~Bad(P.base, s, Core(P.slots[s]))[r]
 Valid(P) == \A s \in Filled(P) : Viol(P.base, s, P.slots[s]) = {}
 Unsupported(P) == Valid(P) /\ \E s \in Filled(P) : Unsp(P.base, s, P.slots[s]) # {}
 Violated(P) == UNION {Viol(P.base, s, P.slots[s]) : s \in Filled(P)}
@@ -521,21 +525,24 @@ Wit == [
      FBin("+", "gs", "gi"), FBin("-", "gi", "gp"), FBin("-", "gp", "gq"), FBin("-", "gip", "gip"), FBin("<<", "gi", "gd"), FBin(">>", "gp", "gi"),
      FBin("<", "gp", "gq"), FBin("<", "gp", "k0"), FBin(">=", "gs", "gs"), FBin("<=", "gfp", "gfp"), FBin("==", "gp", "gq"), FBin("==", "gp", "gi"),
      FBin("!=", "gfp", "gv"), FBin("==", "gs", "gs"), FBin("&", "gd", "gi"), FBin("^", "gp", "gi"), FBin("|", "gi", "gs"),
-     FBin("&&", "gs", "gi"), FBin("||", "gi", "gs")},
+     FBin("&&", "gs", "gi"), FBin("||", "gi", "gs"),
+     \* a constant zero of non-void pointer type is NOT a null pointer constant (6.3.2.3p3): no shortcut past 6.5.9p2
+     FBin("==", "gq", "kpi"), FBin("!=", "kpc", "gp"), FBin("==", "gfp", "kpi"), FBin("!=", "gq", "knil"), FBin("==", "kpc", "kpi"),
+     FCInit(FBin("==", "kpc", "kpi")), FCInit(FBin("!=", "knil", "kpc"))},
   R_unary_operand |-> {FUn("neg", "gp"), FUn("pos", "gs"), FUn("bnot", "gd"), FUn("lnot", "gs"), FUn("bnot", "gp")},
   R_deref_nonpointer |-> {FUn("deref", "gi"), FUn("deref", "gd"), FUn("deref", "gs")},
   R_addr_nonlvalue |-> {FUn("addr", "k1")},
   R_addr_of_bitfield |-> {FUn("addr", "gsbf")},
   R_addr_of_register |-> {FUn("addr", "lr")},
   R_incdec_nonlvalue |-> {FUn("preinc", "k1"), FUn("postinc", "ga"), FUn("predec", "gf")},
-  R_incdec_const |-> {FUn("preinc", "gc"), FUn("postinc", "gc")},
+  R_incdec_const |-> {FUn("preinc", "gc"), FUn("postinc", "gc"), FUn("preinc", "gcbf")},
   R_incdec_type |-> {FUn("postinc", "gs"), FUn("preinc", "gv"), FUn("postinc", "gfp")},
   R_sizeof_function |-> {FUn("sizeof", "gf"), FSizeofT("sizeof", "fn_ii"), FSizeofT("_Alignof", "fn_ii")},
   R_sizeof_bitfield |-> {FUn("sizeof", "gsbf")},
   R_abstract_declarator_ident |-> {FSizeofT("sizeof", "named_abstract"), FSizeofT("_Alignof", "named_abstract")},
   R_sizeof_incomplete |-> {FSizeofT("sizeof", "void"), FSizeofT("sizeof", "struct_I"), FSizeofT("sizeof", "arr_unk"), FSizeofT("_Alignof", "struct_I")},
   R_assign_nonlvalue |-> {FAsg("=", "k1", "gi"), FAsg("=", "ga", "k0"), FAsg("=", "gf", "k0"), FAsg("+=", "k1", "gi")},
-  R_assign_const |-> {FAsg("=", "gc", "gi"), FAsg("+=", "gc", "k1")},
+  R_assign_const |-> {FAsg("=", "gc", "gi"), FAsg("+=", "gc", "k1"), FAsg("=", "gcbf", "k1"), FAsg("+=", "gcbf", "k1")},
   R_incompatible_ptr |-> {FAsg("=", "gp", "gq"), FAsg("=", "gp", "gi"), FAsg("=", "gp", "gcp"), FSInit("ptr_int", "gq"), FSInit("ptr_char", "gp"),
      FSInit("ptr_int", "gcp"), FSInit("ptr_int", "gi"), FSInit("ptr_int", "ks"), FCall("gpf", <<"gq">>), FCall("gpf", <<"gi">>), FStrInit("charp", "wide")},
   R_assign_incompatible |-> {FAsg("=", "gi", "gp"), FAsg("=", "gi", "gs"), FAsg("=", "gs", "gt"), FAsg("=", "gs", "gi"), FAsg("=", "gp", "gd"),
@@ -544,13 +551,15 @@ Wit == [
   R_compound_assign_types |-> {FAsg("+=", "gi", "gp"), FAsg("+=", "gp", "gp"), FAsg("+=", "gp", "gd"), FAsg("+=", "gs", "gi"), FAsg("%=", "gd", "gi"),
      FAsg("<<=", "gi", "gd"), FAsg("&=", "gi", "gp"), FAsg("*=", "gp", "gi"), FAsg("-=", "gv", "gi")},
   R_call_nonfunction |-> {FCall("gi", <<>>), FCall("gp", <<"gi">>), FCall("gs", <<>>)},
-  R_call_arity |-> {FCall("gf", <<>>), FCall("gf", <<"gi", "gi">>), FCall("gvf", <<"gi">>), FCall("gfp", <<>>), FCall("gpf", <<"gp", "gi">>)},
+  R_call_arity |-> {FCall("gf", <<>>), FCall("gf", <<"gi", "gi">>), FCall("gvf", <<"gi">>), FCall("gfp", <<>>), FCall("gpf", <<"gp", "gi">>),
+     FCall("gvar", <<>>), FCall("gvar", <<"gi">>)},
   R_member_of_nonstruct |-> {FMem(".", "gi", "m"), FMem("->", "gp", "m"), FMem("->", "gs", "m"), FMem(".", "gsp", "m"), FMem(".", "gd", "q")},
   R_no_member |-> {FMem(".", "gs", "zz"), FMem("->", "gsp", "zz"), FMem(".", "gt", "m"), FMem(".", "gu", "q")},
   R_subscript |-> {FIdx("gi", "gi"), FIdx("gp", "gd"), FIdx("gip", "gi"), FIdx("gv", "k1"), FIdx("gp", "gp"), FIdx("gs", "gi"), FIdx("gfp", "gi")},
   R_cast_nonscalar |-> {FCast("struct_S", "gs"), FCast("int", "gs"), FCast("struct_S", "gi"), FCast("ptr_int", "gs")},
   R_cond_first_operand |-> {FCond("gs", "gi", "gi")},
-  R_cond_operands |-> {FCond("gi", "gs", "gi"), FCond("gi", "gp", "gq"), FCond("gi", "gs", "gt"), FCond("gi", "gp", "gi"), FCond("gi", "gd", "gp")},
+  R_cond_operands |-> {FCond("gi", "gq", "kpi"), FCond("gi", "knil", "gq"), FCond("gi", "kpi", "gfp"), FCond("gi", "kpc", "kpi"),
+     FCInit(FCond("k1", "kpc", "kpi")), FCond("gi", "gs", "gi"), FCond("gi", "gp", "gq"), FCond("gi", "gs", "gt"), FCond("gi", "gp", "gi"), FCond("gi", "gd", "gp")},
   R_generic_dup_default |-> {FGeneric("gi", <<"default", "default">>)},
   R_generic_assoc_type |-> {FGeneric("gi", <<"struct_I", "default">>), FGeneric("gi", <<"fn_ii", "default">>), FGeneric("gi", <<"arr_unk", "default">>), FGeneric("gi", <<"vla", "default">>)},
   R_generic_dup_type |-> {FGeneric("gi", <<"int", "int">>)},
@@ -711,6 +720,12 @@ App(r, b, p, f) ==
 
 (* curated valid fragments (the valid twins of the witnesses) *)
 BenignFrags == {
+  FBin("==", "gp", "kpi"), FBin("!=", "kv", "gq"), FBin("==", "gp", "knil"), FBin("==", "gfp", "kv"), FBin("!=", "kpi", "k0"), FBin("==", "kv", "kpc"),
+  FCond("gi", "gp", "kpi"), FCond("gi", "gq", "kv"), FCond("gi", "kv", "gfp"), FCond("gi", "knil", "gp"), FCond("gi", "k0", "kpc"),
+  FCInit(FBin("==", "kpi", "kpi")), FCInit(FBin("!=", "kpi", "kv")), FCInit(FBin("==", "kpc", "k0")), FCInit(FBin("==", "knil", "kpi")),
+  FCInit(FCond("k1", "kpi", "kv")), FCInit(FCond("k1", "k0", "kpc")),
+  FAsg("=", "gfp", "kv"), FAsg("=", "gp", "kpi"), FAsg("=", "gq", "kv"), FCall("gvar", <<"gi", "gi">>), FCall("gvar", <<"gi", "gi", "gd">>),
+  FCall("gvar", <<"gi", "gi", "gp">>), FUn("sizeof", "gcbf") = FUn("sizeof", "gcbf"),
   FUse("gi"), FUse("ek"), FBin("+", "gp", "gi"), FBin("+", "gi", "gq"), FBin("-", "gp", "gcp"), FBin("-", "gq", "gi"), FBin("==", "gp", "k0"),
   FBin("!=", "gv", "gp"), FBin("==", "gfp", "gfp"), FBin("<", "gp", "gcp"), FBin(">=", "gv", "gv"), FBin("<=", "gip", "gip"), FBin("&", "gi", "k0"),
   FBin("%", "gi", "gi"), FBin("<<", "gi", "k0"), FBin("&&", "gp", "gd"), FBin("||", "gfp", "gi"), FBin("*", "gd", "gi"), FBin("/", "gi", "gd"),
@@ -1111,6 +1126,7 @@ SubOf(f) == CASE f.form \in {"bin", "un"} -> f.op
               [] f.form \in {"synx", "lit", "misc", "builtin"} -> f.kind
               [] f.form = "dir" -> (IF f.va # "none" THEN f.va ELSE f.d)
               [] f.form = "drop" -> (IF f.with = "" THEN f.tok ELSE f.with)
+              [] f.form = "cinit" -> (IF f.of.form = "bin" THEN f.of.op ELSE "cond")
               [] OTHER -> f.form
 
 (* One invariant evaluates the rules once per state and does three things:                 *)
